@@ -808,6 +808,8 @@ class Interp:
                         dfl_.append(self.eval(st_.value))
                     elif dfl_:
                         return _NOHOME
+            if fields_ and any(isinstance(st_, (ast.FunctionDef, ast.AsyncFunctionDef)) for st_ in obj.node.body) and self.externals.get("__world__") is None:
+                return _NOHOME  # properties / methods on the record: the object model's business
             if fields_ and not any(isinstance(st_, (ast.FunctionDef, ast.AsyncFunctionDef)) for st_ in obj.node.body):
                 nt_ = _c.namedtuple(obj.name, fields_, defaults=dfl_ or None)
                 return PyFunc(lambda a, k, nt_=nt_: nt_(*a, **k), obj.name)
@@ -820,6 +822,10 @@ class Interp:
                 return _NOHOME  # only an object-model scenario knows how to run methods of instances; elsewhere: cannot decide
             if obj.name not in wld.classes:
                 wld.add_class(obj)
+                fresh_ = wld.externals()  # the new class's constructor and method dispatchers, for every interpreter sharing this table
+                for k_, v_ in fresh_.items():
+                    if k_ not in self.externals or k_.startswith("."):
+                        self.externals[k_] = v_
             return PyFunc(lambda a, k, wld=wld, obj=obj: wld.new(obj, a, k), obj.name)
         if kind == "assign":
             store = self.externals.setdefault("__modconst__", {})
